@@ -157,6 +157,9 @@ def make_label(style):
         return lambda k: "arm" + "x" * (int(k) % 3) + "%d" % k
     if style == "float":
         return lambda k: float(k) + 0.5
+    if style == "tenths":
+        # float labels that single precision does not represent exactly: a float32 decisions array holds OTHER doubles than the labels
+        return lambda k: (int(k) + 3) / 10.0
     if style == "negint":
         return lambda k: -int(k) * 3 - 1
     if style == "mixed":
@@ -323,6 +326,10 @@ def apply_op(mab, o, label, inv, case):
                     # labels of several types: a plain list, or an object array (numpy's default conversion of such a list is the
                     # caller's business: it would hand the library an all-string array)
                     ds = np.asarray(ds, dtype=object) if len(ds) % 2 else ds
+                elif case.get("label") == "tenths":
+                    # (not with a binarizer: the generated binarizers look the decision up by label, and would be handed numpy.float32 values)
+                    binz = (case["lp"][0] == "thompson" and case["lp"][1] is not None) or any(x[0] == "add" and x[2] is not None for x in case.get("ops", []))
+                    ds = np.asarray(ds, dtype=np.float32) if (len(ds) + (k == "pfit")) % 2 and not binz else np.asarray(ds)
                 else:
                     ds = np.asarray(ds)
                 rs = np.asarray(rs, dtype=float)
